@@ -4,6 +4,7 @@ package main
 // observation lines as the Lean driver.
 
 import (
+	"encoding/json"
 	"bytes"
 	"crypto"
 	"encoding/binary"
@@ -317,6 +318,21 @@ func (e *Env) applyCore(op *Op) []string {
 		return e.applyCli(op)
 	case "st":
 		return e.applySt(op.St)
+	case "forge":
+		return e.applyForge(op)
+	case "ftrunc":
+		// the file is cut short behind the library's back; later commands see what is left
+		if e.path == "" {
+			return []string{"noimg"}
+		}
+		e.Close()
+		if err := os.Truncate(e.path, op.N); err != nil {
+			return []string{"ftrunc err"}
+		}
+		if f, err := sif.LoadContainerFromPath(e.path, sif.OptLoadWithFlag(os.O_RDONLY)); err == nil {
+			e.f = f
+		}
+		return []string{"ftrunc ok"}
 	case "case":
 		return []string{fmt.Sprintf("case %d", op.Case)}
 	case "create":
@@ -743,4 +759,62 @@ func (e *Env) stState() string {
 		b = bb.Bytes()
 	}
 	return fmt.Sprintf("pos=%d len=%d fnv=%d", pos, len(b), fnv64(b))
+}
+
+// applyForge replaces the signatures of group op.S.Groups[0] by ONE envelope assembled from two
+// of them: the first signature's signed payload and signature list, plus — under a member name
+// that differs only in letter case — the payload of the last one (made over the image as it is
+// now, by a key nobody trusts).  A DSSE verifier and a metadata reader that disagree on which of
+// the two members is "the" payload would verify one document and interpret the other.
+func (e *Env) applyForge(op *Op) []string {
+	if e.f == nil || len(op.S.Groups) == 0 {
+		op.Raw = []string{"nop"}
+		return []string{"nop"}
+	}
+	gid := op.S.Groups[0]
+	type sigObj struct {
+		id   uint32
+		blob []byte
+	}
+	var sigs []sigObj
+	e.f.WithDescriptors(func(d sif.Descriptor) bool {
+		if l, isG := d.LinkedID(); d.DataType() == sif.DataSignature && isG && l == gid {
+			b, _ := d.GetData()
+			sigs = append(sigs, sigObj{d.ID(), b})
+		}
+		return false
+	})
+	skip := func() []string {
+		op.Raw = []string{"nop"}
+		return []string{"nop"}
+	}
+	if len(sigs) < 2 {
+		return skip()
+	}
+	var good, evil map[string]json.RawMessage
+	if json.Unmarshal(sigs[0].blob, &good) != nil || json.Unmarshal(sigs[len(sigs)-1].blob, &evil) != nil ||
+		good["payload"] == nil || evil["payload"] == nil || good["signatures"] == nil {
+		return skip()
+	}
+	var crafted []byte
+	switch op.ID % 3 {
+	case 0: // lower-case member first, the signed one under another capitalisation last
+		crafted = []byte(fmt.Sprintf(`{"payload":%s,"payloadType":%s,"signatures":%s,"Payload":%s}`, evil["payload"], good["payloadType"], good["signatures"], good["payload"]))
+	case 1: // the other order
+		crafted = []byte(fmt.Sprintf(`{"PAYLOAD":%s,"payloadType":%s,"signatures":%s,"payload":%s}`, good["payload"], good["payloadType"], good["signatures"], evil["payload"]))
+	default: // the same member twice
+		crafted = []byte(fmt.Sprintf(`{"payload":%s,"payload":%s,"payloadType":%s,"signatures":%s}`, evil["payload"], good["payload"], good["payloadType"], good["signatures"]))
+	}
+	var subs []*Op
+	for _, s := range sigs {
+		subs = append(subs, &Op{Kind: "del", Sel: Sel{Kind: "id", N: int64(s.id)}, T: TOpt{Kind: "det"}})
+	}
+	subs = append(subs, &Op{Kind: "add", T: TOpt{Kind: "det"}, DI: sigObjectDI(crafted, gid, 0, 1, nil, 0)})
+	var obs []string
+	op.Raw = nil
+	for _, so := range subs {
+		obs = append(obs, e.applyCore(so)...)
+		op.Raw = append(op.Raw, so.Lines()...)
+	}
+	return obs
 }
